@@ -66,7 +66,7 @@ def execute_guarded(mod, scn):
     is reported as a violation 'does-not-terminate' of the property under test, not as a harness error."""
     import signal
 
-    limit = float(getattr(mod, "RUN_CPU_LIMIT_S", 120.0))
+    limit = float(getattr(mod, "RUN_CPU_LIMIT_S", 240.0))
 
     def on_alarm(signum, frame):
         raise RunTimeout()
@@ -110,13 +110,14 @@ def mode_lane(prop: str, cfg_path: str, out_path: str) -> int:
     faults = {}
     probes = {}
     n = ok = viol = nontrivial = steps = 0
+    n_hangs = 0
     truncated = False
     samples = []
     nontrivial_scens = set()
     with open(out_path, "w") as out:
         for i, seed in enumerate(cfg["seeds"]):
-            if time.monotonic() - t0 > soft:
-                truncated = True
+            if time.monotonic() - t0 > soft or n_hangs >= 3:
+                truncated = True  # each hang costs a full watchdog period: three are evidence enough
                 break
             scn = mod.generate(seed, cfg.get("gen", {}))
             sd = scen_digest(scn)
@@ -142,6 +143,8 @@ def mode_lane(prop: str, cfg_path: str, out_path: str) -> int:
                 nontrivial += 1
                 nontrivial_scens.add(sd)
             rec = {"seed": seed, "verdict": res["verdict"], "scen": sd, "log": res["log"]}
+            if res["verdict"] == "violation" and res.get("sig", [""])[-1] == "does-not-terminate":
+                n_hangs += 1
             if res["verdict"] == "violation":
                 viol += 1
                 rec.update({"sig": res["sig"], "detail": res["detail"], "step": res["step"], "scenario": scn})
